@@ -112,6 +112,7 @@ def dAttr : Sexp → Option RawAttr
   | .list [.atom "repr", .atom "unparsable"] => some (.repr .unparsable)
   | .list [.atom "repr", .atom "notlist"] => some (.repr .notList)
   | .list [.atom "other"] => some .other
+  | .list [.atom "bare", p] => do some (.bare (← dPath p))
   | _ => none
 
 def dMember : Sexp → Option Member
